@@ -55,13 +55,14 @@ Qed.
 Print Assumptions C19_group_rows.
 
 (* joint_index / weight_index are the columns selected by the offsets of the JOINT and WEIGHT
-   inputs, and every index of an accepted skin is below the length of its source *)
+   inputs, and every index of an accepted skin is in range: weight indices in [0, len), joint
+   indices in [-1, len) - COLLADA gives the joint index -1 the meaning "the bind shape" *)
 Theorem C19_in_range : forall d kj km kw kwj js ms ws wjs s,
   well_referenced d kj km kw kwj js ms ws wjs -> load_skin d = Ok s ->
   sv_joint_index s = map (column (Z.to_nat (vp_oj (pick_vw (sd_vw d))))) (sv_groups s) /\
   sv_weight_index s = map (column (Z.to_nat (vp_ow (pick_vw (sd_vw d))))) (sv_groups s) /\
-  (forall x, In x (concat (sv_joint_index s)) -> (x < Z.of_nat (src_len wjs))%Z) /\
-  (forall x, In x (concat (sv_weight_index s)) -> (x < Z.of_nat (src_len ws))%Z).
+  (forall x, In x (concat (sv_joint_index s)) -> (-1 <= x < Z.of_nat (src_len wjs))%Z) /\
+  (forall x, In x (concat (sv_weight_index s)) -> (0 <= x < Z.of_nat (src_len ws))%Z).
 Proof.
   intros d kj km kw kwj js ms ws wjs s W H. rewrite (load_skin_decode _ _ _ _ _ _ _ _ _ W) in H.
   pose proof (decode_ok _ _ _ _ _ _ H) as K. cbv zeta in K. tauto.
@@ -70,7 +71,7 @@ Print Assumptions C19_in_range.
 
 (* malformed numbers are rejected as DaeMalformedError: joint/matrix count mismatch, a <v>
    stream shorter OR longer than nindices * sum(vcount), a joint or weight index beyond its
-   source *)
+   source, a weight index below 0 or a joint index below -1 *)
 Theorem C19_rejects : forall d kj km kw kwj js ms ws wjs,
   well_referenced d kj km kw kwj js ms ws wjs ->
   spec_malformed d js ms ws wjs -> load_skin d = Raise DaeMalformed.
@@ -202,8 +203,11 @@ Example C19_rejected_nonvacuous :
   load_skin (ex_skin [2;1; 0;0; 1;1; 0;0]%Z) = Raise DaeMalformed /\   (* too long *)
   load_skin (ex_skin [2;1; 0;0; 1]%Z) = Raise DaeMalformed /\          (* too short *)
   load_skin (ex_skin [2;2; 0;0; 1;1]%Z) = Raise DaeMalformed /\        (* joint index 2 of 2 *)
-  load_skin (ex_skin [3;1; 0;0; 1;1]%Z) = Raise DaeMalformed.          (* weight index 3 of 3 *)
-Proof. vm_compute. repeat split. Qed.
+  load_skin (ex_skin [3;1; 0;0; 1;1]%Z) = Raise DaeMalformed /\        (* weight index 3 of 3 *)
+  load_skin (ex_skin [-1;1; 0;0; 1;1]%Z) = Raise DaeMalformed /\       (* weight index -1 *)
+  load_skin (ex_skin [2;-2; 0;0; 1;1]%Z) = Raise DaeMalformed /\       (* joint index -2 *)
+  (exists s, load_skin (ex_skin [2;-1; 0;0; 1;1]%Z) = Ok s).           (* joint index -1: the bind shape *)
+Proof. vm_compute. repeat split. eexists; reflexivity. Qed.
 
 Example C19_morph_nonvacuous :
   let d := mk_morph_desc [(1%N, SrcFloats 1 [4; -8; 12]%Z); (2%N, SrcNames true [21%N; 20%N; 21%N])]
